@@ -83,7 +83,8 @@ fn decode_inner(buf: &mut BytesMut) -> Result<Option<(RequestId, (Tag, Vec<Contr
     buf.advance(buf.len() - i.len());
     let tag = tag.clone();
     let mut tags = match tag
-        .match_id(Types::Sequence as u64)
+        .match_class(TagClass::Universal)
+        .and_then(|t| t.match_id(Types::Sequence as u64))
         .and_then(|t| t.expect_constructed())
     {
         Some(tags) => tags,
@@ -126,6 +127,9 @@ fn decode_inner(buf: &mut BytesMut) -> Result<Option<(RequestId, (Tag, Vec<Contr
     } else {
         (maybe_controls, None)
     };
+    if protoop.class != TagClass::Application {
+        return Err(decoding_error);
+    }
     let controls = match controls {
         Some(controls) => match try_parse_controls(controls) {
             Some(controls) => controls,
@@ -143,6 +147,10 @@ fn decode_inner(buf: &mut BytesMut) -> Result<Option<(RequestId, (Tag, Vec<Contr
         Some(id) => id,
         None => return Err(decoding_error),
     };
+    if !tags.is_empty() {
+        // something precedes the message ID
+        return Err(decoding_error);
+    }
     Ok(Some((msgid, (Tag::StructureTag(protoop), controls))))
 }
 
